@@ -289,6 +289,7 @@ def run_check(prop, tier, seed):
                 seen.add(ckey)
             elif verdict == 'violation-noinput':
                 violations.append((key, path, ' no-failing-input-found'))
+                undecided.append({'contract': r['name'], 'obligation': o['id'], 'why': 'refuted (ledger obligation); counter-model did not replay natively'})
             else:
                 undecided.append({'contract': r['name'], 'obligation': o['id'],
                                   'why': 'counter-model did not replay natively and obligation is not in the baseline ledger'})
@@ -320,10 +321,13 @@ def run_check(prop, tier, seed):
     # ---- native sampling of the contracts on the real code (bounded, never counted as proof) ---
     from pyvc import sample as sampler
     nsamp = 12 if tier == 'quick' else 120
+    # contracts whose proof is not complete on this tree get a much larger bounded exploration
+    weak = set(u['contract'] for u in undecided if 'contract' in u)
     sjobs = []
     for c in cs:
         if c.native and not getattr(c, 'no_sampling', False):
-            sjobs.append({'module': c._module, 'contract': c.name, 'cases': sampler.samples(c, nsamp, seed)})
+            k = nsamp if c.name not in weak else (600 if tier == 'quick' else 3000)
+            sjobs.append({'module': c._module, 'contract': c.name, 'cases': sampler.samples(c, k, seed)})
     sres = native_batch(sjobs)
     samp_total = samp_checked = 0
     samp_records = []
@@ -375,7 +379,7 @@ def run_check(prop, tier, seed):
             lines.append('KNOWN-FINDING: property=%s %s' % (prop, k['what']))
 
     wall = time.time() - t0
-    if total_obl == 0 and not machinery_errors:
+    if total_obl == 0 and not machinery_errors and not any(f['fallback'] for f in fn_records):
         machinery_errors.append('zero obligations generated for %s' % prop)
 
     evidence = {
